@@ -391,6 +391,14 @@ def check_history(case):
             continue
         k = op["k"]
         dt = date_of(k)
+        fd = None
+        if series and k not in first:
+            # the neighbours for the derivative are asked *before* the query proper, and only the
+            # first time: nothing of the harness then stands between two consecutive queries
+            h = 600.0
+            plus = np.asarray(ask(dt + timedelta(seconds=h)).base, float)
+            minus = np.asarray(ask(dt - timedelta(seconds=h)).base, float)
+            fd = (plus[:3] - minus[:3]) / (2 * h)
         res = ask(dt)
         where = f"step {n + 1} ({name}, date {k:+d} x {step} d)"
         vals = np.array(res.base, float)
@@ -420,11 +428,8 @@ def check_history(case):
             ref = kernel().state(idx, 399, *true_tdb(sub))
             ang = math.degrees(od.angle(got[:3], ref[:3]))
             dist = abs(float(np.linalg.norm(got[:3])) / float(np.linalg.norm(ref[:3])) - 1.0)
-            h = 600.0
-            plus = np.asarray(ask(dt + timedelta(seconds=h)).base, float)
-            minus = np.asarray(ask(dt - timedelta(seconds=h)).base, float)
-            fd = (plus[:3] - minus[:3]) / (2 * h)
-            verr = float(np.linalg.norm(vals[3:] - fd)) / float(np.linalg.norm(fd))
+            # a repeated answer is bit-identical to the first one, whose velocity was checked
+            verr = 0.0 if fd is None else float(np.linalg.norm(vals[3:] - fd)) / float(np.linalg.norm(fd))
             worst = max(worst, ang / tol_ang, dist / tol_dist, verr / tol_vel)
             if ang > tol_ang or dist > tol_dist:
                 fail("history-position",
